@@ -71,9 +71,13 @@ Definition r_guards : Prop :=
   (if fl_apos fl then 0 < ct else ct < 0) /\
   (if fl_bhi fl then cosd 85 < sa else sa < cosd 85) /\
   (if fl_am_hi fl then 10 < alt else alt < 10) /\
-  (if fl_dif_small fl then gdif < 0.01 else (0.01 < gdif /\ class_lo (fl_k fl) < r_eps < class_hi (fl_k fl))) /\
+  (if fl_dif_small fl then gdif < 0.01 else (0.01 < gdif /\ class_lo (fl_k fl) < r_eps /\ (match fl_k fl with 7%nat => True | _ => r_eps < class_hi (fl_k fl) end))) /\
   (if fl_f1pos fl then 0 < r_f1raw else r_f1raw < 0) /\ 0.01 < alt.
 End Rad.
+
+(* the altitude (through atan of sa / sqrt (1 - sa^2)) can only be enclosed as tightly as sin alt allows:
+   to 1e-5 degrees below 30 degrees, where the air mass is steep and needs it, to 2e-3 degrees above *)
+Definition alt_eps (altv eps : Q) : Q := if Qle_bool altv 30 then eps * 100 else eps * 20000.
 
 Definition rad_ok (n tsol lat beta gamma gdir gdif rho : Q) (fl : radflags)
                   (dv sav ctv altv hint_eps : Q) (impl_dir impl_dif tol : Q) : Prop :=
@@ -85,7 +89,7 @@ Definition rad_ok (n tsol lat beta gamma gdir gdif rho : Q) (fl : radflags)
     (q dv - q hint_eps <= d <= q dv + q hint_eps) /\
     (q sav - q hint_eps <= sa <= q sav + q hint_eps) /\
     (q ctv - q hint_eps <= ct <= q ctv + q hint_eps) /\
-    (q altv - q hint_eps * 20000 <= alt <= q altv + q hint_eps * 20000) /\
+    (q altv - q (alt_eps altv hint_eps) <= alt <= q altv + q (alt_eps altv hint_eps)) /\
     r_guards (q n) (q gdir) (q gdif) fl sa ct alt /\
     Rabs (r_dir (q n) (q gdir) (q gdif) fl sa ct alt - q impl_dir) <= q tol /\
     Rabs (r_dif (q n) (q beta) (q gdir) (q gdif) (q rho) fl sa ct alt - q impl_dif) <= q tol.
@@ -96,6 +100,7 @@ Ltac simple_tac := unf; repeat split; interval with (i_prec 40).
 Ltac rad_tac :=
   intros d sa ct alt Hd Hsa Hct Halt;
   match goal with H : context [hourangle_q ?t] |- _ => let v := eval vm_compute in (hourangle_q t) in change (hourangle_q t) with v in * end;
+  match goal with |- context [alt_eps ?a ?e] => let v := eval vm_compute in (alt_eps a e) in change (alt_eps a e) with v end;
   cbv [q Q2R Qnum Qden] in *;
   match goal with |- (?lo <= d <= ?hi) /\ _ =>
     assert (Bd : lo <= d <= hi) by (rewrite Hd; cbv [decl sind cosd rad]; interval with (i_prec 50)) end;
